@@ -1574,6 +1574,196 @@ def R2(F, rep, FL):
            'UncompressedFile::write does not keep the declared end at or behind the put position', nontrivial=True)
 
 
+# ---------------------------------------------------------------------- R3: appended containers never overlap the tail
+def _ptr_root(e):
+    """local/parameter id behind p->member / (*p).member / p.get()->member for raw and smart pointers; None otherwise"""
+    e = strip_all_casts(e)
+    for _ in range(6):
+        if not isinstance(e, dict):
+            return None
+        if e.get('k') == 'Ref' and e.get('dk') in ('local', 'parm'):
+            return e['id']
+        if e.get('k') == 'Member':
+            e = strip_all_casts(e.get('base'))
+        elif e.get('k') == 'Call' and e.get('ck') == 'operator' and e.get('args'):
+            e = strip_all_casts(e['args'][0])
+        elif e.get('k') == 'Call' and e.get('fn') == 'get' and e.get('obj') is not None:
+            e = strip_all_casts(e['obj'])
+        elif e.get('k') == 'Un' and e.get('op') == '*':
+            e = strip_all_casts(e['sub'])
+        else:
+            return None
+    return None
+
+
+def _ptr_null_test(cond, vid):
+    """True: cond holds iff pointer vid is null; False: iff non-null; None: something else (raw and smart pointers)"""
+    r = is_null_test(cond, vid)
+    if r is not None:
+        return r
+    c = strip_all_casts(cond)
+    if isinstance(c, dict) and c.get('k') == 'Un' and c.get('op') == '!':
+        s = _ptr_null_test(c['sub'], vid)
+        return None if s is None else (not s)
+    if isinstance(c, dict) and c.get('k') == 'Call' and (c.get('fn') == 'operator bool' or (c.get('callee') or '').endswith('operator bool')):
+        o = c.get('obj') if c.get('obj') is not None else (c.get('args') or [None])[0]
+        if o is not None and local_id(o) == vid:
+            return False
+    if isinstance(c, dict) and c.get('k') == 'Call' and c.get('ck') == 'operator' and c.get('op') in ('==', '!=') and len(c.get('args', [])) == 2:
+        a, b = (strip_all_casts(x) for x in c['args'])
+        for x, y in ((a, b), (b, a)):
+            if local_id(x) == vid and isinstance(y, dict) and y.get('lit') == 'null':
+                return c['op'] == '=='
+    return None
+
+
+def _of_back(m):
+    """m is <m_data.back()>-><field> (also through a local bound to m_data.back())"""
+    b = strip_all_casts(m.get('base'))
+    for _ in range(4):
+        if not isinstance(b, dict):
+            return False
+        if b.get('k') == 'Call' and b.get('fn') == 'back' and (member_path(b.get('obj')) or (None,))[-1] == 'm_data':
+            return True
+        if b.get('k') == 'Call' and b.get('ck') == 'operator' and b.get('args'):
+            b = strip_all_casts(b['args'][0])
+        elif b.get('k') == 'Call' and b.get('fn') == 'get' and b.get('obj') is not None:
+            b = strip_all_casts(b['obj'])
+        elif b.get('k') == 'Un' and b.get('op') == '*':
+            b = strip_all_casts(b['sub'])
+        else:
+            return False
+    return False
+
+
+def _r3_starts(evs, fn, pushed):
+    starts = []
+    for e in evs:
+        if e['ev'] != 'assign':
+            continue
+        n = e['n']
+        lhs, rhs = (n['lhs'], n['rhs']) if n.get('k') == 'Bin' else ((n['args'][0], n['args'][1]) if len(n.get('args', [])) == 2 else (None, None))
+        if lhs is not None and mname(lhs) == 'filePosition' and n.get('op') == '=' and (pushed is None or _ptr_root(lhs) == pushed):
+            r_ = deep_resolve(rhs, fn)
+            sx = _norm(expr_str(r_))
+            if sx in ('(uncompressedFileSize + filePosition)', '(filePosition + uncompressedFileSize)'):
+                # both operands must be fields of the list's last element
+                mem = [x for x in walk(r_) if x.get('k') == 'Member' and x.get('name') in ('uncompressedFileSize', 'filePosition')]
+                if len(mem) == 2 and all(_of_back(x) for x in mem):
+                    sx = 'END-OF-LAST'
+            starts.append(sx)
+    return starts
+
+
+def _r3_free(evs, pi, fn):
+    """on the path prefix evs[:pi]: no container of the list covers the put position any more"""
+    lookups = {}
+    for e in evs[:pi]:
+        init = None
+        vid = None
+        if e['ev'] == 'decl' and e['var'].get('init') is not None:
+            init, vid, nm = e['var']['init'], e['var']['id'], e['var']['name']
+        elif e['ev'] == 'assign' and e['n'].get('k') in ('Bin', 'Call'):
+            n = e['n']
+            lhs, rhs = (n['lhs'], n['rhs']) if n.get('k') == 'Bin' else ((n['args'][0], n['args'][1]) if len(n.get('args', [])) == 2 else (None, None))
+            if lhs is not None and n.get('op') == '=' and local_id(lhs) is not None:
+                init, vid, nm = rhs, local_id(lhs), '?'
+        if init is None:
+            continue
+        i_ = strip_all_casts(init)
+        while isinstance(i_, dict) and i_.get('k') == 'Construct' and len(i_.get('args', [])) == 1:
+            i_ = strip_all_casts(i_['args'][0])
+        if isinstance(i_, dict) and i_.get('k') == 'Call' and i_.get('fn') == 'logContainerContaining' and \
+                _norm(expr_str(deep_resolve(i_['args'][0], fn))) == 'm_tellp':
+            lookups[vid] = nm
+    for vid in lookups:
+        for e in evs[:pi]:
+            if e['ev'] == 'branch':
+                t = _ptr_null_test(e['n'], vid)
+                if t is not None and (t == bool(e['taken'])):
+                    return True    # this path runs with "no container holds the put position"
+        cut_buf = cut_len = False
+        for e in evs[:pi]:
+            n = e['n'] if e['ev'] in ('call', 'assign') else None
+            if n is None:
+                continue
+            if e['ev'] == 'call' and n.get('fn') == 'resize' and mname(n.get('obj')) == 'uncompressedFile' and _ptr_root(n.get('obj')) == vid:
+                cut_buf = _norm(expr_str(deep_resolve(n['args'][0], fn))) == '(m_tellp - filePosition)'
+            if e['ev'] == 'assign' and n.get('k') == 'Bin' and n.get('op') == '=' and mname(n['lhs']) == 'uncompressedFileSize' and _ptr_root(n['lhs']) == vid:
+                cut_len = _norm(expr_str(deep_resolve(n['rhs'], fn))) in ('(m_tellp - filePosition)', 'uncompressedFile.size()')
+        if cut_buf and cut_len:
+            return True
+    return False
+
+
+def R3(F, rep, FL):
+    """the containers of the stream's list cover disjoint, ascending byte ranges: a container is appended only (a) when no
+    container holds the put position (it then starts at the end of the last one), or (b) after the partly filled container that holds the
+    put position was cut to the put position (buffer and size field) - otherwise logContainerContaining() keeps answering with the
+    older container for the overlapping positions and bytes come back out of order"""
+    cls = 'Vector::BLF::UncompressedFile'
+    found = 0
+    meths = methods_of(F, cls)
+    for fn in meths:
+        pushes = [n for n in walk(fn['body'], into_lambda=False) if n.get('k') == 'Call' and n.get('fn') in ('push_back', 'emplace_back') and
+                  (member_path(n.get('obj')) or (None,))[-1] == 'm_data']
+        if not pushes:
+            continue
+        found += 1
+        rep.count('R3')
+        push = pushes[0]
+        pushed = local_id(push['args'][0]) if push.get('args') else None
+        problems = []
+        npaths = 0
+        # the contexts in which "nothing covers the put position" has to hold: the function itself, or - for a private helper that
+        # appends on behalf of its callers - every call of the helper in the other methods of the class
+        contexts = []
+        if fn.get('access') == 2:
+            for c in meths:
+                if c is fn:
+                    continue
+                calls = [n for n in walk(c['body'], into_lambda=False) if n.get('k') == 'Call' and n.get('callee') == fn['name'] and n.get('csig', fn['sig']) == fn['sig']]
+                for cn in calls:
+                    contexts.append((c, cn))
+            if not contexts:
+                contexts = [(fn, push)]
+        else:
+            contexts = [(fn, push)]
+        for evs, out in FL.paths(fn, follow=(), unroll=1):
+            if not any(e['ev'] == 'call' and e['n'] is push for e in evs):
+                continue
+            npaths += 1
+            starts = _r3_starts(evs, fn, pushed)
+            if not (starts and all(s_ in ('m_tellp', 'END-OF-LAST') for s_ in starts)):
+                problems.append('the appended container starts at %s, which is neither the put position nor the end of the last container (path %s)'
+                                % (starts or 'an unassigned position', fmt_events(evs, limit=10)))
+                break
+        if npaths == 0:
+            problems.append('no path reaches the push')
+        for c, point in contexts:
+            if problems:
+                break
+            reach = 0
+            for evs, out in FL.paths(c, follow=(), unroll=1):
+                pi = [i for i, e in enumerate(evs) if e['ev'] == 'call' and (e['n'] is point or e['n'] is push)]
+                if not pi:
+                    continue
+                reach += 1
+                if not _r3_free(evs, pi[0], c):
+                    problems.append('%s appends a container at the put position while an earlier, partly filled container may still cover it '
+                                    '(no logContainerContaining(m_tellp) == null branch and no cut of that container to m_tellp - filePosition before the push; path %s)'
+                                    % (short(c['name']), fmt_events(evs, limit=10)))
+                    break
+            if reach == 0 and not problems:
+                problems.append('no path of %s reaches the append' % short(c['name']))
+        rep.ob('R3', '%s|append-disjoint' % (short(fn['name']) + ('/container' if 'shared_ptr' in fn['sig'] else '')), not problems, rep.fn_site(fn, push['l']),
+               '%s: an appended container starts where the stream ends and no older container covers the put position (%d publishing paths, %d context(s))'
+               % (short(fn['name']), npaths, len(contexts))
+               if not problems else '%s: %s' % (short(fn['name']), problems[0]), nontrivial=True)
+    if found < 2:
+        raise AnalysisBroken('R3: expected two publishing functions in UncompressedFile, found %d' % found)
+
+
 # ---------------------------------------------------------------------- E4 sticky failure, P5 position before publication
 def E4(F, rep):
     """a short read stays visible until the caller checks it: no stream operation a decoder performs resets the failure state
